@@ -26,6 +26,7 @@ from typing import Any
 from sim import histsim, kit, project, runner
 
 PROP = "C04"
+FAMILY = {"seq": 320, "par": 64}  # finite scenario families (members are independent of VERIF_SEED)
 MUTATING = ("write", "remove", "commit", "commit_path")
 
 
@@ -167,7 +168,7 @@ def evaluate(scn: dict[str, Any], tag: str, only_plan: dict[str, Any] | None = N
         if v0 is not None:
             violations.append({"plan": {"kind": "none"}, "violation": dict(v0, kind="fault_free_" + v0["kind"])})
             return {"violations": violations, "stats": stats, "sim_time_s": h.world.sim_advance_s}
-        rng = kit.rng_for(PROP, "plans", kit.digest(scn))
+        rng = kit.family_rng(PROP, "plans", kit.digest(scn))
         plans = [only_plan] if only_plan is not None else fault_plans(log, scn["config"], rng, n_random)
         follow = scn.get("followup")  # optional edit between faulted and clean run
         for plan in plans:
@@ -282,7 +283,7 @@ def evaluate_par(scn: dict[str, Any], tag: str, only_plan: dict[str, Any] | None
             if e[1] in MUTATING:
                 plans.append({"kind": "coordinator_crash_before", "n": e[0], "op": e[1], "record": runner.record_kind(e[2])})
         nd = len(script)
-        rng = kit.rng_for(PROP, "parplans", kit.digest(scn))
+        rng = kit.family_rng(PROP, "parplans", kit.digest(scn))
         for d in sorted(rng.sample(range(1, max(2, nd)), min(12, max(1, nd - 1)))):
             plans.append({"kind": "kill_all_at_decision", "d": d})
         if only_plan is not None:
@@ -337,7 +338,7 @@ def evaluate_par(scn: dict[str, Any], tag: str, only_plan: dict[str, Any] | None
 
 
 def gen_par(k: int, tier: str) -> dict[str, Any]:
-    rng = kit.rng_for(PROP, "par", k)
+    rng = kit.family_rng(PROP, "par", k)
     cfgs = [histsim.STORE_CONFIGS[0], histsim.STORE_CONFIGS[2], histsim.STORE_CONFIGS[0], histsim.STORE_CONFIGS[3]]
     base = histsim.gen_history_scenario(rng, cfg=cfgs[k % len(cfgs)], max_steps=2, max_mods=7, clock_mode="plain")
     for st in base["steps"]:
@@ -370,7 +371,7 @@ def par_task(item: tuple[int, str]) -> dict[str, Any]:
 
 
 def gen(k: int, tier: str) -> dict[str, Any]:
-    rng = kit.rng_for(PROP, "scn", k)
+    rng = kit.family_rng(PROP, "scn", k)
     cfgs = [c for c in histsim.STORE_CONFIGS if not (c["format"] == "json" and c["shards"] == 1)]
     cfg = cfgs[k % len(cfgs)]
     base = histsim.gen_history_scenario(rng, cfg=cfg, max_steps=3, max_mods=6, clock_mode="plain")
@@ -417,7 +418,7 @@ def task(item: tuple[int, str]) -> dict[str, Any]:
         "interleavings": [],
         "n_plans": st["plans"],
     }
-    if k < 2:
+    if k % 20 == 0:
         out["sample"] = {"config": scn["config"], "clock": scn["clock"], "steps": scn["steps"][:2], "modules": sorted(scn["project"]["mods"])}
     if r["violations"]:
         out["violations"] = [{"scenario": scn, "plan": v["plan"], "violation": v["violation"]} for v in r["violations"]]
@@ -508,13 +509,13 @@ def run(tier: str) -> int:
         "a completed syscall / committed sqlite transaction survives the crash (process kill, not power loss)",
         "parallel leg: worker/coordinator crash points and worker store failures are placed on the clean run's fixed schedule (sim/parsched.py); kill-all instants are sampled",
     ]
-    n = 16 if tier == "quick" else 1200
-    n_par = 4 if tier == "quick" else 150
-    items = [(k, tier) for k in range(n)] + [(100000 + k, tier) for k in range(n_par)]
+    n = 16 if tier == "quick" else FAMILY["seq"]
+    n_par = 4 if tier == "quick" else FAMILY["par"]
+    items = [(k, tier) for k in kit.sample_indices(PROP, "seq", FAMILY["seq"], n)] + [(100000 + k, tier) for k in kit.sample_indices(PROP, "par", FAMILY["par"], n_par)]
     known = kit.load_known_findings(PROP)
     # determinism self-test: the same scenarios again must give the same plans, faults and verdicts
     n_det = 2 if tier == "quick" else 24
-    results, skipped = kit.run_pool(task, items + [(k, tier) for k in range(n_det)], budget_s=900 if tier == "quick" else 3 * 3600)
+    results, skipped = kit.run_pool(task, items + [it for it in items if it[0] < 100000][:n_det], budget_s=900 if tier == "quick" else 3 * 3600)
     firsts: dict[int, Any] = {}
     dupes = []
     uniq = []
